@@ -465,7 +465,7 @@ func (i *Interp) callSSA(caller *frame, fn *ssa.Function, args []value, env []va
 		i.stubs[key]++
 		return in(i, caller, fn, args)
 	}
-	if strings.HasPrefix(key, "(*github.com/go-task/task/v3/internal/logger.Logger).") && !strings.HasSuffix(key, ".Prompt") {
+	if strings.HasPrefix(key, "(*github.com/go-task/task/v3/internal/logger.Logger).") && !strings.HasSuffix(key, ".Prompt") && !strings.HasSuffix(key, ".FOutf") {
 		i.stubs[key]++
 		return nil
 	}
